@@ -96,6 +96,8 @@ func RecvQueuedFull
 // (every close in this file is proved to happen under the owner's write lock: obligation close-protected).
 
 spec live(s []E, owner int) bool = (forall i :: {s[i]} 0 <= i && i < len(s) ==> ref(s[i]) != 0 && !chclosed(s[i]) && chowner(s[i]) == owner) && (forall i, j :: {s[i], s[j]} 0 <= i && i < j && j < len(s) ==> ref(s[i]) != ref(s[j]))
+// the same invariant quantified over absolute positions of the backing array (matches reads at any index expression)
+spec livep(s []E, owner int) bool = (forall p :: {at(s, p)} inrange(s, p) ==> ref(at(s, p)) != 0 && !chclosed(at(s, p)) && chowner(at(s, p)) == owner) && (forall p, q :: {at(s, p), at(s, q)} inrange(s, p) && inrange(s, q) && p < q ==> ref(at(s, p)) != ref(at(s, q)))
 
 // send: called with the read (or write) lock held, on a live subscriber channel. Exactly one of: the event is handed
 // to sub (one send action carrying ev), or - only with a positive timeout - it is not and onTimeout(ev) is called
@@ -146,8 +148,11 @@ func PubSub.PubSync
   loop 0 invariant forall k :: {logarg(send, 2, k)} 0 <= k && k <= rangeindex ==> logarg(send, 2, k) == o.subs[k] && logarg(send, 1, k) == ev && logarg(send, 0, k) == o && logarg(send, 3, k) == o.PubTimeoutAfter && logarg(send, 4, k) == o.OnPubTimeout
   loop 0 invariant live(o.subs, ref(o))
 
-// PubSliceSync: call number j*n+i (n = number of subscribers) is send(evs[j], subs[i]): every (event, subscriber)
-// pair exactly once, events in slice order for every subscriber.
+// PubSliceSync (and PubSlice, PubSliceWait below): every logged call k carries the ghost indices (logiter) of the event
+// j and the subscriber i its two range loops were visiting: it is send(evs[j], subs[i]) with 0<=j<m, 0<=i<n; the index
+// pairs are strictly increasing in lexicographic order along the log; and there are exactly m*n calls. A strictly
+// increasing sequence of m*n pairs inside [0,m)x[0,n) is the full lexicographic enumeration (pigeonhole; this last
+// step is elementary mathematics, not checked): every (event, subscriber) pair exactly once, in publication order.
 func PubSub.PubSliceSync
   property C10
   mode atomic
@@ -158,13 +163,193 @@ func PubSub.PubSliceSync
   opt nla uf
   lockinv live(o.subs, ref(o))
   requires o != nil
-  exit_ensures[fanout] loglen(send) == len(evs) * len(o.subs)
-  exit_ensures[each]   forall j, i :: {logarg(send, 2, j * len(o.subs) + i)} 0 <= j && j < len(evs) && 0 <= i && i < len(o.subs) ==> logarg(send, 2, j * len(o.subs) + i) == o.subs[i] && logarg(send, 1, j * len(o.subs) + i) == evs[j] && logarg(send, 0, j * len(o.subs) + i) == o
   exit_ensures[locks]  actkind(0) == K_RLock && actkind(nact - 1) == K_RUnlock
+  exit_ensures[fanout] loglen(send) == len(evs) * len(o.subs)
+  exit_ensures[each]   forall k :: {logiter(send, 0, k)} 0 <= k && k < loglen(send) ==> 0 <= logiter(send, 0, k) && 0 <= logiter(send, 1, k) && logiter(send, 1, k) < len(o.subs) && logiter(send, 0, k) < len(evs) && logarg(send, 2, k) == o.subs[logiter(send, 1, k)] && logarg(send, 1, k) == evs[logiter(send, 0, k)] && logarg(send, 0, k) == o
+  exit_ensures[order]  forall k1, k2 :: {logiter(send, 0, k1), logiter(send, 0, k2)} 0 <= k1 && k1 < k2 && k2 < loglen(send) ==> logiter(send, 0, k1) < logiter(send, 0, k2) || (logiter(send, 0, k1) == logiter(send, 0, k2) && logiter(send, 1, k1) < logiter(send, 1, k2))
   loop 0 invariant -1 <= rangeindex_0 && rangeindex_0 < len(evs) && loglen(send) == (rangeindex_0 + 1) * len(o.subs)
-  loop 0 invariant forall j, i :: {logarg(send, 2, j * len(o.subs) + i)} 0 <= j && j <= rangeindex_0 && 0 <= i && i < len(o.subs) ==> logarg(send, 2, j * len(o.subs) + i) == o.subs[i] && logarg(send, 1, j * len(o.subs) + i) == evs[j] && logarg(send, 0, j * len(o.subs) + i) == o
+  loop 0 invariant forall k :: {logiter(send, 0, k)} 0 <= k && k < loglen(send) ==> 0 <= logiter(send, 0, k) && 0 <= logiter(send, 1, k) && logiter(send, 1, k) < len(o.subs) && logiter(send, 0, k) <= rangeindex_0 && logarg(send, 2, k) == o.subs[logiter(send, 1, k)] && logarg(send, 1, k) == evs[logiter(send, 0, k)] && logarg(send, 0, k) == o
+  loop 0 invariant forall k1, k2 :: {logiter(send, 0, k1), logiter(send, 0, k2)} 0 <= k1 && k1 < k2 && k2 < loglen(send) ==> logiter(send, 0, k1) < logiter(send, 0, k2) || (logiter(send, 0, k1) == logiter(send, 0, k2) && logiter(send, 1, k1) < logiter(send, 1, k2))
   loop 0 invariant live(o.subs, ref(o))
   loop 1 invariant -1 <= rangeindex_0 && rangeindex_0 + 1 < len(evs) && -1 <= rangeindex_1 && rangeindex_1 < len(o.subs) && loglen(send) == (rangeindex_0 + 1) * len(o.subs) + rangeindex_1 + 1
-  loop 1 invariant forall j, i :: {logarg(send, 2, j * len(o.subs) + i)} 0 <= j && 0 <= i && i < len(o.subs) && (j <= rangeindex_0 || (j == rangeindex_0 + 1 && i <= rangeindex_1)) ==> logarg(send, 2, j * len(o.subs) + i) == o.subs[i] && logarg(send, 1, j * len(o.subs) + i) == evs[j] && logarg(send, 0, j * len(o.subs) + i) == o
+  loop 1 invariant forall k :: {logiter(send, 0, k)} 0 <= k && k < loglen(send) ==> 0 <= logiter(send, 0, k) && 0 <= logiter(send, 1, k) && logiter(send, 1, k) < len(o.subs) && (logiter(send, 0, k) <= rangeindex_0 || (logiter(send, 0, k) == rangeindex_0 + 1 && logiter(send, 1, k) <= rangeindex_1)) && logarg(send, 2, k) == o.subs[logiter(send, 1, k)] && logarg(send, 1, k) == evs[logiter(send, 0, k)] && logarg(send, 0, k) == o
+  loop 1 invariant forall k1, k2 :: {logiter(send, 0, k1), logiter(send, 0, k2)} 0 <= k1 && k1 < k2 && k2 < loglen(send) ==> logiter(send, 0, k1) < logiter(send, 0, k2) || (logiter(send, 0, k1) == logiter(send, 0, k2) && logiter(send, 1, k1) < logiter(send, 1, k2))
   loop 1 invariant live(o.subs, ref(o))
+
+// The asynchronous publishers: under the read lock exactly one goroutine is spawned per (event, subscriber) pair
+// (call log go_send / go_sendWaitGroup), with the right arguments; the Wait variants add exactly that many tokens to
+// a fresh WaitGroup before spawning, every spawned goroutine calls Done exactly once after its send
+// (sendWaitGroup's contract), and Wait is the last action: they return only after every hand-off has finished
+// (ASSUMED WaitGroup semantics). "Eventually" (Pub, PubSlice) is liveness and is not decided.
+// KNOWN FINDING (go-unprotected): the spawned send needs the read lock for its whole run, but the goroutines
+// outlive the critical section, so Unsub/UnsubAll can close a channel under an in-flight send: process panic.
+func PubSub.Pub
+  property C10
+  mode atomic
+  opt lock o.mutex
+  opt guarded subs
+  opt immutable PubSub.OnPubTimeout PubSub.PubTimeoutAfter PubSub.DefaultBuffer
+  lockinv live(o.subs, ref(o))
+  requires o != nil
+  exit_ensures[fanout] loglen(go_send) == len(o.subs)
+  exit_ensures[each]   forall k :: {logarg(go_send, 2, k)} 0 <= k && k < len(o.subs) ==> logarg(go_send, 2, k) == o.subs[k] && logarg(go_send, 1, k) == ev && logarg(go_send, 0, k) == o && logarg(go_send, 3, k) == o.PubTimeoutAfter && logarg(go_send, 4, k) == o.OnPubTimeout
+  exit_ensures[locks]  actkind(0) == K_RLock && actkind(nact - 1) == K_RUnlock
+  loop 0 invariant -1 <= rangeindex && rangeindex < len(o.subs) && loglen(go_send) == rangeindex + 1
+  loop 0 invariant forall k :: {logarg(go_send, 2, k)} 0 <= k && k <= rangeindex ==> logarg(go_send, 2, k) == o.subs[k] && logarg(go_send, 1, k) == ev && logarg(go_send, 0, k) == o && logarg(go_send, 3, k) == o.PubTimeoutAfter && logarg(go_send, 4, k) == o.OnPubTimeout
+  loop 0 invariant live(o.subs, ref(o))
+
+func PubSub.PubSlice
+  property C10
+  mode atomic
+  opt lock o.mutex
+  opt guarded subs
+  opt immutable PubSub.OnPubTimeout PubSub.PubTimeoutAfter PubSub.DefaultBuffer
+  opt nla uf
+  lockinv live(o.subs, ref(o))
+  requires o != nil
+  exit_ensures[locks]  actkind(0) == K_RLock && actkind(nact - 1) == K_RUnlock
+  exit_ensures[fanout] loglen(go_send) == len(evs) * len(o.subs)
+  exit_ensures[each]   forall k :: {logiter(go_send, 0, k)} 0 <= k && k < loglen(go_send) ==> 0 <= logiter(go_send, 0, k) && 0 <= logiter(go_send, 1, k) && logiter(go_send, 1, k) < len(o.subs) && logiter(go_send, 0, k) < len(evs) && logarg(go_send, 2, k) == o.subs[logiter(go_send, 1, k)] && logarg(go_send, 1, k) == evs[logiter(go_send, 0, k)] && logarg(go_send, 0, k) == o
+  exit_ensures[order]  forall k1, k2 :: {logiter(go_send, 0, k1), logiter(go_send, 0, k2)} 0 <= k1 && k1 < k2 && k2 < loglen(go_send) ==> logiter(go_send, 0, k1) < logiter(go_send, 0, k2) || (logiter(go_send, 0, k1) == logiter(go_send, 0, k2) && logiter(go_send, 1, k1) < logiter(go_send, 1, k2))
+  loop 0 invariant -1 <= rangeindex_0 && rangeindex_0 < len(evs) && loglen(go_send) == (rangeindex_0 + 1) * len(o.subs)
+  loop 0 invariant forall k :: {logiter(go_send, 0, k)} 0 <= k && k < loglen(go_send) ==> 0 <= logiter(go_send, 0, k) && 0 <= logiter(go_send, 1, k) && logiter(go_send, 1, k) < len(o.subs) && logiter(go_send, 0, k) <= rangeindex_0 && logarg(go_send, 2, k) == o.subs[logiter(go_send, 1, k)] && logarg(go_send, 1, k) == evs[logiter(go_send, 0, k)] && logarg(go_send, 0, k) == o
+  loop 0 invariant forall k1, k2 :: {logiter(go_send, 0, k1), logiter(go_send, 0, k2)} 0 <= k1 && k1 < k2 && k2 < loglen(go_send) ==> logiter(go_send, 0, k1) < logiter(go_send, 0, k2) || (logiter(go_send, 0, k1) == logiter(go_send, 0, k2) && logiter(go_send, 1, k1) < logiter(go_send, 1, k2))
+  loop 0 invariant live(o.subs, ref(o))
+  loop 1 invariant -1 <= rangeindex_0 && rangeindex_0 + 1 < len(evs) && -1 <= rangeindex_1 && rangeindex_1 < len(o.subs) && loglen(go_send) == (rangeindex_0 + 1) * len(o.subs) + rangeindex_1 + 1
+  loop 1 invariant forall k :: {logiter(go_send, 0, k)} 0 <= k && k < loglen(go_send) ==> 0 <= logiter(go_send, 0, k) && 0 <= logiter(go_send, 1, k) && logiter(go_send, 1, k) < len(o.subs) && (logiter(go_send, 0, k) <= rangeindex_0 || (logiter(go_send, 0, k) == rangeindex_0 + 1 && logiter(go_send, 1, k) <= rangeindex_1)) && logarg(go_send, 2, k) == o.subs[logiter(go_send, 1, k)] && logarg(go_send, 1, k) == evs[logiter(go_send, 0, k)] && logarg(go_send, 0, k) == o
+  loop 1 invariant forall k1, k2 :: {logiter(go_send, 0, k1), logiter(go_send, 0, k2)} 0 <= k1 && k1 < k2 && k2 < loglen(go_send) ==> logiter(go_send, 0, k1) < logiter(go_send, 0, k2) || (logiter(go_send, 0, k1) == logiter(go_send, 0, k2) && logiter(go_send, 1, k1) < logiter(go_send, 1, k2))
+  loop 1 invariant live(o.subs, ref(o))
+
+func PubSub.PubWait
+  property C10
+  mode atomic
+  opt lock o.mutex
+  opt guarded subs
+  opt immutable PubSub.OnPubTimeout PubSub.PubTimeoutAfter PubSub.DefaultBuffer
+  lockinv live(o.subs, ref(o))
+  requires o != nil
+  exit_ensures[fanout] loglen(go_sendWaitGroup) == len(o.subs)
+  exit_ensures[each]   forall k :: {logarg(go_sendWaitGroup, 2, k)} 0 <= k && k < len(o.subs) ==> logarg(go_sendWaitGroup, 2, k) == o.subs[k] && logarg(go_sendWaitGroup, 1, k) == ev && logarg(go_sendWaitGroup, 0, k) == o && logarg(go_sendWaitGroup, 3, k) == o.PubTimeoutAfter && logarg(go_sendWaitGroup, 4, k) == o.OnPubTimeout && logarg(go_sendWaitGroup, 5, k) == actobj(1)
+  exit_ensures[tokens] nact == 4 && actkind(0) == K_RLock && actkind(1) == K_WGAdd && actarg(1, 0) == len(o.subs) && fresh(actobj(1)) && actkind(2) == K_RUnlock && actkind(3) == K_WGWait && actobj(3) == actobj(1)
+  loop 0 invariant -1 <= rangeindex && rangeindex < len(o.subs) && loglen(go_sendWaitGroup) == rangeindex + 1
+  loop 0 invariant forall k :: {logarg(go_sendWaitGroup, 2, k)} 0 <= k && k <= rangeindex ==> logarg(go_sendWaitGroup, 2, k) == o.subs[k] && logarg(go_sendWaitGroup, 1, k) == ev && logarg(go_sendWaitGroup, 0, k) == o && logarg(go_sendWaitGroup, 3, k) == o.PubTimeoutAfter && logarg(go_sendWaitGroup, 4, k) == o.OnPubTimeout && logarg(go_sendWaitGroup, 5, k) == actobj(1)
+  loop 0 invariant live(o.subs, ref(o))
+
+func PubSub.PubSliceWait
+  property C10
+  mode atomic
+  opt lock o.mutex
+  opt guarded subs
+  opt immutable PubSub.OnPubTimeout PubSub.PubTimeoutAfter PubSub.DefaultBuffer
+  opt nla uf
+  lockinv live(o.subs, ref(o))
+  requires o != nil
+  exit_ensures[fanout] loglen(go_sendWaitGroup) == len(evs) * len(o.subs)
+  exit_ensures[each]   forall k :: {logiter(go_sendWaitGroup, 0, k)} 0 <= k && k < loglen(go_sendWaitGroup) ==> 0 <= logiter(go_sendWaitGroup, 0, k) && 0 <= logiter(go_sendWaitGroup, 1, k) && logiter(go_sendWaitGroup, 1, k) < len(o.subs) && logiter(go_sendWaitGroup, 0, k) < len(evs) && logarg(go_sendWaitGroup, 2, k) == o.subs[logiter(go_sendWaitGroup, 1, k)] && logarg(go_sendWaitGroup, 1, k) == evs[logiter(go_sendWaitGroup, 0, k)] && logarg(go_sendWaitGroup, 0, k) == o && logarg(go_sendWaitGroup, 5, k) == actobj(1)
+  exit_ensures[order]  forall k1, k2 :: {logiter(go_sendWaitGroup, 0, k1), logiter(go_sendWaitGroup, 0, k2)} 0 <= k1 && k1 < k2 && k2 < loglen(go_sendWaitGroup) ==> logiter(go_sendWaitGroup, 0, k1) < logiter(go_sendWaitGroup, 0, k2) || (logiter(go_sendWaitGroup, 0, k1) == logiter(go_sendWaitGroup, 0, k2) && logiter(go_sendWaitGroup, 1, k1) < logiter(go_sendWaitGroup, 1, k2))
+  exit_ensures[tokens] nact == 4 && actkind(0) == K_RLock && actkind(1) == K_WGAdd && actarg(1, 0) == len(o.subs) * len(evs) && fresh(actobj(1)) && actkind(2) == K_RUnlock && actkind(3) == K_WGWait && actobj(3) == actobj(1)
+  loop 0 invariant -1 <= rangeindex_0 && rangeindex_0 < len(evs) && loglen(go_sendWaitGroup) == (rangeindex_0 + 1) * len(o.subs)
+  loop 0 invariant forall k :: {logiter(go_sendWaitGroup, 0, k)} 0 <= k && k < loglen(go_sendWaitGroup) ==> 0 <= logiter(go_sendWaitGroup, 0, k) && 0 <= logiter(go_sendWaitGroup, 1, k) && logiter(go_sendWaitGroup, 1, k) < len(o.subs) && logiter(go_sendWaitGroup, 0, k) <= rangeindex_0 && logarg(go_sendWaitGroup, 2, k) == o.subs[logiter(go_sendWaitGroup, 1, k)] && logarg(go_sendWaitGroup, 1, k) == evs[logiter(go_sendWaitGroup, 0, k)] && logarg(go_sendWaitGroup, 0, k) == o && logarg(go_sendWaitGroup, 5, k) == actobj(1)
+  loop 0 invariant forall k1, k2 :: {logiter(go_sendWaitGroup, 0, k1), logiter(go_sendWaitGroup, 0, k2)} 0 <= k1 && k1 < k2 && k2 < loglen(go_sendWaitGroup) ==> logiter(go_sendWaitGroup, 0, k1) < logiter(go_sendWaitGroup, 0, k2) || (logiter(go_sendWaitGroup, 0, k1) == logiter(go_sendWaitGroup, 0, k2) && logiter(go_sendWaitGroup, 1, k1) < logiter(go_sendWaitGroup, 1, k2))
+  loop 0 invariant live(o.subs, ref(o))
+  loop 1 invariant -1 <= rangeindex_0 && rangeindex_0 + 1 < len(evs) && -1 <= rangeindex_1 && rangeindex_1 < len(o.subs) && loglen(go_sendWaitGroup) == (rangeindex_0 + 1) * len(o.subs) + rangeindex_1 + 1
+  loop 1 invariant forall k :: {logiter(go_sendWaitGroup, 0, k)} 0 <= k && k < loglen(go_sendWaitGroup) ==> 0 <= logiter(go_sendWaitGroup, 0, k) && 0 <= logiter(go_sendWaitGroup, 1, k) && logiter(go_sendWaitGroup, 1, k) < len(o.subs) && (logiter(go_sendWaitGroup, 0, k) <= rangeindex_0 || (logiter(go_sendWaitGroup, 0, k) == rangeindex_0 + 1 && logiter(go_sendWaitGroup, 1, k) <= rangeindex_1)) && logarg(go_sendWaitGroup, 2, k) == o.subs[logiter(go_sendWaitGroup, 1, k)] && logarg(go_sendWaitGroup, 1, k) == evs[logiter(go_sendWaitGroup, 0, k)] && logarg(go_sendWaitGroup, 0, k) == o && logarg(go_sendWaitGroup, 5, k) == actobj(1)
+  loop 1 invariant forall k1, k2 :: {logiter(go_sendWaitGroup, 0, k1), logiter(go_sendWaitGroup, 0, k2)} 0 <= k1 && k1 < k2 && k2 < loglen(go_sendWaitGroup) ==> logiter(go_sendWaitGroup, 0, k1) < logiter(go_sendWaitGroup, 0, k2) || (logiter(go_sendWaitGroup, 0, k1) == logiter(go_sendWaitGroup, 0, k2) && logiter(go_sendWaitGroup, 1, k1) < logiter(go_sendWaitGroup, 1, k2))
+  loop 1 invariant live(o.subs, ref(o))
+
+// ---- subscription management
+spec ownedsubs(s []E, owner int) bool = (forall p :: {at(s, p)} inrange(s, p) ==> ref(at(s, p)) != 0 && chowner(at(s, p)) == owner) && (forall p, q :: {at(s, p), at(s, q)} inrange(s, p) && inrange(s, q) && p < q ==> ref(at(s, p)) != ref(at(s, q)))
+
+// subIndex: first index of sub, or -1 (sequential contract; only called with the lock held).
+func PubSub.subIndex
+  property C10
+  opt lock o.mutex
+  opt entryheld R
+  requires o != nil
+  ensures[found]  result >= 0 ==> result < len(o.subs) && ref(o.subs[result]) == ref(sub)
+  ensures[first]  forall i :: {o.subs[i]} 0 <= i && i < result ==> ref(o.subs[i]) != ref(sub)
+  ensures[absent] result < 0 ==> result == -1 && (forall i :: {o.subs[i]} 0 <= i && i < len(o.subs) ==> ref(o.subs[i]) != ref(sub))
+  assigns nothing
+  loop 0 invariant -1 <= rangeindex && rangeindex < len(o.subs)
+  loop 0 invariant forall i :: {o.subs[i]} 0 <= i && i <= rangeindex ==> ref(o.subs[i]) != ref(sub)
+
+// Unsub: nil -> ErrSubscriptionNotInitalized without touching anything; unknown channel -> ErrAlreadyUnsubscribed,
+// nothing closed, subscriptions unchanged; otherwise exactly that channel is closed (one close action, on sub),
+// it is removed, the other subscribers keep their order. All under the write lock; the invariant is restored.
+func PubSub.Unsub
+  property C10
+  mode atomic
+  opt lock o.mutex
+  opt guarded subs
+  opt immutable g_ErrSubscriptionNotInitalized g_ErrAlreadyUnsubscribed
+  lockinv livep(o.subs, ref(o))
+  requires o != nil
+  exit_ensures[nil]      ref(sub) == 0 ==> result == ErrSubscriptionNotInitalized && nact == 0
+  exit_ensures[unknown]  ref(sub) != 0 && (forall i :: {old(o.subs[i])} 0 <= i && i < old(len(o.subs)) ==> ref(old(o.subs[i])) != ref(sub)) ==> result == ErrAlreadyUnsubscribed && nacts(K_ChanClose) == 0 && len(o.subs) == old(len(o.subs)) && (forall i :: {o.subs[i]} 0 <= i && i < len(o.subs) ==> o.subs[i] == old(o.subs[i]))
+  exit_ensures[removed]  forall k :: {old(o.subs[k])} ref(sub) != 0 && 0 <= k && k < old(len(o.subs)) && ref(old(o.subs[k])) == ref(sub) ==> result == nil && nacts(K_ChanClose) == 1 && nacts(K_ChanClose, sub) == 1 && len(o.subs) == old(len(o.subs)) - 1 && (forall i :: {o.subs[i]} 0 <= i && i < len(o.subs) ==> ref(o.subs[i]) != ref(sub) && o.subs[i] == old(o.subs[ite(i < k, i, i + 1)]))
+  exit_ensures[locks]    ref(sub) != 0 ==> actkind(0) == K_Lock && actkind(nact - 1) == K_Unlock
+
+// UnsubAll: every subscribed channel is closed (each exactly once: a second close would panic), none remains.
+func PubSub.UnsubAll
+  property C10
+  mode atomic
+  opt lock o.mutex
+  opt guarded subs
+  lockinv livep(o.subs, ref(o))
+  requires o != nil
+  exit_ensures[closed] forall i :: {old(o.subs[i])} 0 <= i && i < old(len(o.subs)) ==> chclosed(old(o.subs[i]))
+  exit_ensures[empty]  result == nil && len(o.subs) == 0
+  exit_ensures[locks]  actkind(0) == K_Lock && actkind(nact - 1) == K_Unlock
+  loop 0 invariant -1 <= rangeindex && rangeindex < len(o.subs) && ownedsubs(o.subs, ref(o))
+  loop 0 invariant forall i :: {o.subs[i]} 0 <= i && i < len(o.subs) ==> chclosed(o.subs[i]) == (i <= rangeindex)
+
+// Sub / SubBuf: a fresh open channel of the requested capacity, owned by this PubSub, appended to the subscribers.
+func PubSub.Sub
+  property C10
+  mode atomic
+  opt lock o.mutex
+  opt guarded subs
+  opt chanowner
+  opt immutable PubSub.OnPubTimeout PubSub.PubTimeoutAfter PubSub.DefaultBuffer
+  lockinv live(o.subs, ref(o))
+  requires o != nil && o.DefaultBuffer >= 0
+  exit_ensures[result]   ref(result) != 0 && fresh(result) && chcap(result) == o.DefaultBuffer && chowner(result) == ref(o)
+  exit_ensures[appended] len(o.subs) == old(len(o.subs)) + 1 && ref(o.subs[len(o.subs) - 1]) == ref(result) && (forall i :: {o.subs[i]} 0 <= i && i < old(len(o.subs)) ==> o.subs[i] == old(o.subs[i]))
+  exit_ensures[locks]    actkind(0) == K_Lock && actkind(nact - 1) == K_Unlock && nacts(K_ChanClose) == 0 && nacts(K_ChanSend) == 0
+
+func PubSub.SubBuf
+  property C10
+  mode atomic
+  opt lock o.mutex
+  opt guarded subs
+  opt chanowner
+  lockinv live(o.subs, ref(o))
+  requires o != nil && size >= 0
+  exit_ensures[result]   ref(result) != 0 && fresh(result) && chcap(result) == size && chowner(result) == ref(o)
+  exit_ensures[appended] len(o.subs) == old(len(o.subs)) + 1 && ref(o.subs[len(o.subs) - 1]) == ref(result) && (forall i :: {o.subs[i]} 0 <= i && i < old(len(o.subs)) ==> o.subs[i] == old(o.subs[i]))
+  exit_ensures[locks]    actkind(0) == K_Lock && actkind(nact - 1) == K_Unlock && nacts(K_ChanClose) == 0 && nacts(K_ChanSend) == 0
+
+// WithOnly: a fresh PubSub with the same configuration whose subscribers are exactly [sub] if sub is subscribed
+// here and none otherwise, in a backing array of its own.
+// KNOWN FINDING (clone-owns): the clone shares the CHANNEL with the original; Unsub/UnsubAll on the clone close a
+// channel the original still publishes to (send on closed channel / close of closed channel).
+func PubSub.WithOnly
+  property C10
+  mode atomic
+  opt lock o.mutex
+  opt guarded subs
+  opt immutable PubSub.OnPubTimeout PubSub.PubTimeoutAfter PubSub.DefaultBuffer
+  lockinv live(o.subs, ref(o))
+  requires o != nil
+  exit_ensures[fresh]   result != nil && fresh(result) && result.OnPubTimeout == o.OnPubTimeout && result.PubTimeoutAfter == o.PubTimeoutAfter
+  exit_ensures[only]    forall i :: {result.subs[i]} 0 <= i && i < len(result.subs) ==> ref(result.subs[i]) == ref(sub)
+  exit_ensures[count]   len(result.subs) <= 1 && (len(result.subs) == 0 ==> (forall i :: {o.subs[i]} 0 <= i && i < len(o.subs) ==> ref(o.subs[i]) != ref(sub))) && (len(result.subs) == 1 ==> ref(sub) != 0 && chowner(sub) == ref(o))
+  exit_ensures[own-array] len(result.subs) > 0 ==> fresh(result.subs)
+  exit_ensures[clone-owns] forall i :: {result.subs[i]} 0 <= i && i < len(result.subs) ==> chowner(result.subs[i]) == ref(result)
+  exit_ensures[locks]   actkind(0) == K_RLock && actkind(nact - 1) == K_RUnlock && nacts(K_ChanClose) == 0 && nacts(K_ChanSend) == 0
+  loop 0 invariant -1 <= rangeindex && rangeindex < len(o.subs) && live(o.subs, ref(o)) && fresh(clone) && clone != nil
+  loop 0 invariant clone.OnPubTimeout == o.OnPubTimeout && clone.PubTimeoutAfter == o.PubTimeoutAfter && len(clone.subs) <= 1 && len(clone.subs) <= cap(clone.subs) && (cap(clone.subs) == 0 || fresh(clone.subs))
+  loop 0 invariant forall i :: {clone.subs[i]} 0 <= i && i < len(clone.subs) ==> ref(clone.subs[i]) == ref(sub) && ref(sub) != 0 && chowner(sub) == ref(o)
+  loop 0 invariant len(clone.subs) == 0 ==> (forall i :: {o.subs[i]} 0 <= i && i <= rangeindex ==> ref(o.subs[i]) != ref(sub))
+  loop 0 invariant len(clone.subs) == 1 ==> (exists i :: 0 <= i && i <= rangeindex && ref(o.subs[i]) == ref(sub))
 @*/
